@@ -1,18 +1,18 @@
 (* Properties/C08.v -- flows do not interfere. *)
-From MS Require Import L2 Spec.View Spec.TcpRef Spec.C08 Spec.History Proofs.C08.
+From MS Require Import L2 Spec.View Spec.TcpRef Spec.C08 Spec.History Instance Proofs.C08 Proofs.C08Witness.
 
 (* For a TCP frame f: its outcome after history h equals its outcome after h restricted to
    the data segments of f's own flow -- provided no data segment of another flow in h shares
-   f's SYN cookie (without that hypothesis the statement is false: see the known finding). *)
+   f's SYN cookie (without that hypothesis the statement is false: C08_refuted_on_collision). *)
 Theorem C08_interference_free :
   forall E cfg h clk f v tb1,
     Forall (fun g => bytes_ok g = true) (frames h) ->
     view_tcp cfg f = Some v ->
-    no_collision_with cfg (flow_of v) h ->
+    collision_free cfg (flow_of v) h = true ->
     run E cfg [] h = Ok tb1 ->
     exists tb2, run E cfg [] (restrict cfg (flow_of v) h) = Ok tb2 /\
                 outcome E cfg clk tb1 f = outcome E cfg clk tb2 f.
-Proof. exact interference_free. Qed.
+Proof. exact interference_free_bool. Qed.
 
 (* For every other frame (ARP, ICMP, UDP, anything that is not a TCP segment in scope) the
    outcome does not depend on the table, hence not on any earlier traffic. *)
@@ -22,5 +22,16 @@ Theorem C08_non_tcp_history_irrelevant :
     outcome E cfg clk tb1 f = outcome E cfg clk tb2 f.
 Proof. exact non_tcp_history_irrelevant. Qed.
 
+(* Known finding: inside the collision class the property fails (concrete witness, current data). *)
+Theorem C08_refuted_on_collision :
+  exists cfg h clk f v tb1 tb2,
+    view_tcp cfg f = Some v /\
+    collision_free cfg (flow_of v) h = false /\
+    run the_env cfg [] h = Ok tb1 /\
+    run the_env cfg [] (restrict cfg (flow_of v) h) = Ok tb2 /\
+    outcome the_env cfg clk tb1 f <> outcome the_env cfg clk tb2 f.
+Proof. exact refuted_on_collision. Qed.
+
 Print Assumptions C08_interference_free.
 Print Assumptions C08_non_tcp_history_irrelevant.
+Print Assumptions C08_refuted_on_collision.
